@@ -17,6 +17,7 @@ class C05(DevProp):
     pid = "C05"
     fail_term = "c05_failures k"
     mis_term = "c05_mismatch k"
+    soak = True
     monitor_name = "C05 monitor (wf_msgb: status 0x8n/0x9n/0xBn/0xEn, two data bytes < 128) on every message of every step and of the clean-up"
     correspondence_name = "C05 view (per message: well-formed or not)"
     rule = ("configurations that go through the real ParseData (default channel 0/1/16/17, velocity 0/1/127/128, offsets 0/15/16 - rejected ones are "
@@ -75,18 +76,29 @@ class C05(DevProp):
             cases.append({"cfg": cfg, "abs": [], "events": ev, "tag": "panic-every-channel"})
         # hostile key values: non-alternating, repeats, values outside 0/1/2
         for i in range(60 if tier == "quick" else 2000):
-            cfg = devgen.gen_config(rng, with_exit=(rng.random() < 0.3))
-            codes = devgen.all_codes(cfg)
-            ev = []
-            for _ in range(rng.randint(10, 60)):
-                sub, code = rng.choice(codes)
-                ev.append(k(code, rng.choice([0, 1, 1, 1, 2, 3, -1]), sub))
-            cases.append({"cfg": cfg, "abs": [], "events": ev, "tag": "hostile-values"})
+            cases.append(self.hostile_case(rng))
         for i in range(120 if tier == "quick" else 5000):
-            cfg = devgen.gen_config(rng, with_exit=(rng.random() < 0.2))
-            h = devgen.gen_history(rng, cfg, rng.randint(10, 60), p_action=0.4)
-            cases.append({"cfg": cfg, "abs": [], "events": h, "tag": "random"})
+            cases.append(self.random_case(rng))
         return cases
+
+    def hostile_case(self, rng):
+        cfg = devgen.gen_config(rng, with_exit=(rng.random() < 0.3))
+        codes = devgen.all_codes(cfg)
+        ev = []
+        for _ in range(rng.randint(10, 60)):
+            sub, code = rng.choice(codes)
+            ev.append(k(code, rng.choice([0, 1, 1, 1, 2, 3, -1]), sub))
+        return {"cfg": cfg, "abs": [], "events": ev, "tag": "hostile-values"}
+
+    def random_case(self, rng):
+        cfg = devgen.gen_config(rng, with_exit=(rng.random() < 0.2))
+        h = devgen.gen_history(rng, cfg, rng.randint(10, 60), p_action=0.4)
+        return {"cfg": cfg, "abs": [], "events": h, "tag": "random"}
+
+    def soak_case(self, rng):
+        """stream of the extracted-model soak: the 'hostile-values' and 'random' streams in the thorough tier's 2:5 proportion
+        (directly constructed configurations; the parser corners are exhaustive in the normal stage)"""
+        return self.hostile_case(rng) if rng.random() < 2 / 7 else self.random_case(rng)
 
     def extra_coverage(self, run_, cases, results, m):
         run_.coverage["configurations_rejected_by_parser"] = getattr(self, "rejected", 0)
